@@ -265,9 +265,11 @@ func (m *BaseUndoLogManager) Undo(ctx context.Context, dbType types.DBType, xid 
 	if err != nil {
 		return err
 	}
+	committed := false
 	defer func() {
-		if err != nil {
-			// keep the error that made the undo fail: it decides the branch status
+		// every path that does not commit (an error, an undo log that must be ignored, an empty undo log)
+		// ends the local transaction here; the error that made the undo fail is kept: it decides the branch status
+		if !committed {
 			if rollbackErr := tx.Rollback(); rollbackErr != nil {
 				log.Errorf("rollback fail, xid: %s, branchID:%s err:%v", xid, branchID, rollbackErr)
 				return
@@ -381,6 +383,8 @@ func (m *BaseUndoLogManager) Undo(ctx context.Context, dbType types.DBType, xid 
 		log.Infof("xid %v branch %v, undo_log added with %v", xid, branchID, undo.UndoLogStatueGlobalFinished)
 	}
 
+	// whatever Commit answers the transaction is finished
+	committed = true
 	if err = tx.Commit(); err != nil {
 		log.Errorf("[Undo] execute on fail, err: %v", err)
 		return err
